@@ -19,7 +19,7 @@ RULE = ('Dispatch: EVERY operation sequence of depth <= D over a 21-operation al
         'unconnect(callback), unconnect(sender), unconnect(owner of a bound method), reset, '
         'set_silent(T/F), enter/exit silent() (well nested), exit silent() by an exception, 4 emits} on a '
         'fresh EventEmitter, followed by probe emits; plus seeded random histories of length <= 14 over '
-        'the full alphabet (3 callbacks, 2 events, senders S1/S2 with value equality - every other emit comes from an equal but distinct sender object -, single, args/kwargs, a callback that raises - the exception must propagate and leave the emitter usable), a third of them '
+        'the full alphabet (3 callbacks, 2 events, senders S1/S2 with value equality (S2 is falsy) - every other emit comes from an equal but distinct sender object -, single, args/kwargs, a callback that raises - the exception must propagate and leave the emitter usable), a third of them '
         'through the module-level global emitter. Every callback invocation is recorded by the callback '
         'itself (id, sender, args, kwargs) and each emit is compared with a list reference machine. '
         'Progress: EVERY history of depth <= P over {increment, value=0..3, max=0..3, set_complete, '
@@ -52,6 +52,9 @@ class Sender(object):
 
     def __hash__(self):
         return hash(self.name)
+
+    def __len__(self):
+        return 0 if self.name == 'S2' else 1      # S2 is a falsy object (an empty container is a legitimate sender)
 
 
 class World(object):
